@@ -63,9 +63,11 @@ TIMEOUT_S = {"quick": 900, "thorough": 2400}       # watchdog only
 BUDGET_S = {"quick": 600, "thorough": 1800}        # driver backstop; the module cuts its OPTIONAL phases itself after SOFT_S
 SOFT_S = {"quick": 40, "thorough": 240}
 REQUIRE = {
-    "quick": {"enum_phase_completed": 16, "ops_checked": 10000, "reopens_checked": 3000, "reopens_nonempty": 1000, "raw_durable_reads": 10000,
+    "quick": {"enum_phase_completed": 16, "two_queue_schedule_completed": 16, "dotted_sibling_nonempty_checks": 3000,
+              "delete_all_at_K_with_dotted_sibling_nonempty": 300, "ops_checked": 10000, "reopens_checked": 3000, "reopens_nonempty": 1000, "raw_durable_reads": 10000,
               "pulls_nonempty": 1000},
-    "thorough": {"enum_phase_completed": 16, "crash_phase_completed": 16, "ops_checked": 100000, "reopens_checked": 50000, "reopens_nonempty": 20000, "raw_durable_reads": 100000,
+    "thorough": {"enum_phase_completed": 16, "two_queue_schedule_completed": 16, "dotted_sibling_nonempty_checks": 6000,
+                 "delete_all_at_K_with_dotted_sibling_nonempty": 600, "crash_phase_completed": 16, "ops_checked": 100000, "reopens_checked": 50000, "reopens_nonempty": 20000, "raw_durable_reads": 100000,
                  "pulls_nonempty": 10000, "crash_kills": 100, "crash_kills_nonempty": 40},
 }
 EXHAUSTIVE = {"quick": "all op histories of length <= 3 over the 9-op Durq and 10-op Dusq alphabets x every reopen position",
@@ -84,6 +86,28 @@ ALPHA = {
 CLSNAME = {"durq": "Durq", "dusq": "Dusq"}
 
 
+# sibling key pairs [K, S] living in ONE sub-database: plain prefixes, S = K + '.' + text (dotted keys are legal: the hidden
+# ordinal is split off at the RIGHTMOST '.'), nested dots, tuple forms (Hold joins them with '_').  No S may sort inside
+# K's hidden ordinal range (that is C24's recorded encoding weakness, e.g. 'K.<32 hex>', 'K.b'): asserted below.
+PAIRS = [["q", "qq"], ["a", "a_b"], ["a", ["a", "b"]], ["x", "x1"],
+         ["inbox", "inbox.retry"], ["q", "q.x.y"], ["a.b", "a.b.retry"], ["k", "k.z"],
+         [["my", "q"], "my_q.s1"], ["seen", ["seen.retry", "x"]]]
+
+
+def kstr(key):
+    """the str key Hold derives (tuple parts joined with '_')"""
+    return key if isinstance(key, str) else "_".join(key)
+
+
+def kreal(key):
+    return key if isinstance(key, str) else tuple(key)
+
+
+for _a, _b in PAIRS:
+    assert not store.iokey_in_range(kstr(_b).encode(), kstr(_a).encode()), (_a, _b)
+    assert not store.iokey_in_range(kstr(_a).encode(), kstr(_b).encode()), (_a, _b)
+
+
 def mk(i):
     """a FRESH instance for domain index i (equality is by class and field value, never by identity)"""
     name, v = DOMAIN[i]
@@ -100,7 +124,7 @@ def idx(obj):
 def _rand_ops(rng, qk, n, two):
     ops = []
     for _ in range(n):
-        w = 1 if (two and rng.random() < 0.3) else 0
+        w = 1 if (two and rng.random() < 0.4) else 0
         r = rng.random()
         if r < 0.34:
             op = ["push", rng.randrange(4)]
@@ -114,10 +138,12 @@ def _rand_ops(rng, qk, n, two):
             op = ["extend" if qk == "durq" else "update", [rng.randrange(4) for _ in range(rng.randint(0, 5))]]
         elif r < 0.92:
             op = ["count", rng.randrange(4)] if qk == "durq" else ["remove", rng.randrange(4)]
-        elif r < 0.96:
+        elif r < 0.95:
             op = ["clear"]
+        elif r < 0.975:
+            op = ["pin"]
         else:
-            op = ["push", rng.randrange(4)]
+            op = ["syncf"]
         ops.append([w] + op)
     return ops
 
@@ -125,12 +151,39 @@ def _rand_ops(rng, qk, n, two):
 def _crash_case(rng):
     qk = rng.choice(["durq", "dusq"])
     n = rng.randint(3, 14)
-    ops = [o[1:] for o in _rand_ops(rng, qk, n, False) if o[1] not in ("pullx", "pushnone")] or [["push", 1]]
+    # (pin is two LMDB transactions by construction - remove all, then put - and the statement does not list it: not a crash op)
+    ops = [o[1:] for o in _rand_ops(rng, qk, n, False) if o[1] not in ("pullx", "pushnone", "pin", "syncf")] or [["push", 1]]
     if rng.random() < 0.5:
         return {"kind": "crash", "q": qk, "key": "q", "ops": ops, "mode": "async",
                 "k": rng.randrange(len(ops)), "spin": rng.choice([0, 0, 50, 200, 1000, 5000, 20000])}
     return {"kind": "crash", "q": qk, "key": "q", "ops": ops, "mode": "fail",
             "n": rng.randint(1, len(ops)), "phase": rng.choice(["before", "after"])}
+
+
+TRIGGERS = {
+    "clear": lambda ext: [["K", "clear"]],
+    "pin": lambda ext: [["K", "pin"]],
+    "syncf": lambda ext: [["K", "syncf"]],
+    "pull-to-empty": lambda ext: [["K", "pull"], ["K", "pull"], ["K", "pull"], ["K", "pull"]],
+    "clear-inject": lambda ext: [["K", "clear"], ["K", "inject", [1, 1, 2]]],
+    "clear-extend": lambda ext: [["K", "clear"], ["K", ext, [2, 3]], ["K", "clear"]],
+}
+
+
+def two_queue_schedule():
+    """deterministic: class x sibling pair x injection order x trigger; run_case runs each script without a reopen and with
+    a reopen after every single position (a reopen while K is empty makes the new K queue pin its empty content)"""
+    for qk in ("durq", "dusq"):
+        ext = "extend" if qk == "durq" else "update"
+        for pair in PAIRS:
+            for order in (0, 1):
+                keys = pair if order == 0 else [pair[1], pair[0]]
+                role = {"K": order, "S": 1 - order}
+                for name, trig in TRIGGERS.items():
+                    script = ([["S", "push", 0], ["S", ext, [1, 2]], ["K", "push", 3], ["K", ext, [0, 1]]] + trig(ext)
+                              + [["S", "pull"], ["K", "push", 2], ["S", "push", 3], ["S", "clear"], ["K", "pull"]])
+                    yield {"kind": "two", "q": qk, "keys": keys, "trigger": name,
+                           "ops": [[role[o[0]]] + o[1:] for o in script], "how": "new" if order == 0 else "same"}
 
 
 def cases(tier, seed, shard, nshards):
@@ -146,6 +199,12 @@ def cases(tier, seed, shard, nshards):
                     yield {"kind": "enum", "q": qk, "key": "q", "ops": [al[k] for k in hist]}
                 i += 1
     yield {"kind": "marker", "q": "-", "what": "enum_phase_completed"}   # REQUIREd: the EXHAUSTIVE claim depends on it
+    # fixed schedule: two queues at sibling keys in one sub-database, every operation that makes hio delete "all values
+    # at K" (clear, pin, sync of an empty queue -> pin, injecting a preloaded queue) while the sibling holds values
+    for j, c in enumerate(two_queue_schedule()):
+        if j % nshards == shard:
+            yield c
+    yield {"kind": "marker", "q": "-", "what": "two_queue_schedule_completed"}
     rng = random.Random(f"{seed}:C23:{shard}")
     if tier == "thorough":
         for _ in range(960 // nshards):
@@ -160,11 +219,13 @@ def cases(tier, seed, shard, nshards):
             yield {"kind": "marker", "q": "-", "what": "optional_phases_cut_by_soft_limit"}
             return
         qk = rng.choice(["durq", "dusq"])
-        two = rng.random() < 0.4
+        two = rng.random() < 0.5
         ln = rng.randint(10, 60)
         ops = _rand_ops(rng, qk, ln, two)
         pts = sorted(set(rng.randint(1, ln) for _ in range(rng.randint(1, 4))))
-        key, other = rng.choice([["q", "qq"], ["a_b", "a"], ["q", "q_r"], ["x1", "x"], ["mydurq", "my"]])
+        key, other = rng.choice(PAIRS)
+        if rng.random() < 0.5:
+            key, other = other, key
         yield {"kind": "rand", "q": qk, "key": key, "other": other if two else None, "ops": ops, "reopen": pts,
                "how": rng.choice(["new", "new", "same"])}
     if tier == "thorough":
@@ -276,6 +337,10 @@ def do_op(q, op):
             r = q.clear()
         elif name == "count":
             r = q.count(mk(op[1]))
+        elif name == "pin":
+            r = q.pin()
+        elif name == "syncf":
+            r = q.sync(force=True)
         else:
             raise AssertionError(name)
     except AssertionError:
@@ -307,6 +372,9 @@ def check_content(ctx, sub, qk, key, q, model, where, opname, others=()):
         if where == "reopen":
             ctx.violation(f"reopen-mismatch:{cls}", f"after close/reopen + sync at key {key!r}: content {mem} (len {ln}), "
                                                     f"model {want}")
+        elif where == "sibling":
+            ctx.violation(f"sibling-memory-mismatch:{cls}.{opname}",
+                          f"after {opname} on ANOTHER queue: list(q) at {key!r} = {mem} len={ln}, model {want}")
         else:
             ctx.violation(f"memory-mismatch:{cls}.{opname}", f"after {opname}: list(q)={mem} len={ln}, model {want}")
         return False
@@ -317,11 +385,12 @@ def check_content(ctx, sub, qk, key, q, model, where, opname, others=()):
     mine = [(n, v) for n, v in (store.parse_dom(b) for b in raw.get(key.encode(), []))]
     mine = [_IDX.get(t, t) for t in mine]
     if mine != want:
-        ctx.violation(f"durable-mismatch:{cls}.{opname}" if where != "reopen" else f"reopen-durable-mismatch:{cls}",
+        ctx.violation({"reopen": f"reopen-durable-mismatch:{cls}", "sibling": f"sibling-durable-mismatch:{cls}.{opname}"}
+                      .get(where, f"durable-mismatch:{cls}.{opname}"),
                       f"{where} {opname}: durable copy (raw LMDB cursor) at {key!r} is {mine}, model {want}; "
                       f"raw keys={[k for k, _ in store.raw_items(sub.env, sdb.sdb)]}")
         return False
-    allowed = {key.encode()} | {o.encode() for o in others}
+    allowed = {key.encode()} | {kstr(o).encode() for o in others}
     extra = [k for k in raw if k not in allowed]
     if extra:
         ctx.violation(f"durable-foreign-entries:{cls}.{opname}", f"{where} {opname}: sub-database holds entries under {extra}")
@@ -333,7 +402,7 @@ def check_content(ctx, sub, qk, key, q, model, where, opname, others=()):
         ctx.violation(f"escape:{type(ex).__name__}:{type(sdb).__name__}.get", f"{where} {opname}: durable read raised {ex!r}")
         return False
     if viahio != want or cnt != len(want):
-        ctx.violation(f"durable-read-mismatch:{cls}.{opname}", f"{where} {opname}: sdb.get({key!r})={viahio} cnt={cnt}, "
+        ctx.violation(("sibling-" if where == "sibling" else "") + f"durable-read-mismatch:{cls}.{opname}", f"{where} {opname}: sdb.get({key!r})={viahio} cnt={cnt}, "
                                                                f"model {want}")
         return False
     return True
